@@ -371,6 +371,18 @@ func exec(c proto.Case, o *proto.Out) []string {
 			}
 			now, _ := kv("now")
 			outs[i] = st.rl.reload(g == "1", eps, now == "1", o)
+		case "txn", "txn?":
+			id, ok := kv("id")
+			if !ok || st.mode != 3 || len(w) != 2 {
+				outs[i] = "bad-op"
+				break
+			}
+			if w[0] == "txn" {
+				outs[i] = st.rl.anchor(id)
+			} else {
+				outs[i] = st.rl.txnView(id, o)
+				lifetime = true
+			}
 		case "fail":
 			ps, ok1 := kv("put")
 			ds, ok2 := kv("del")
